@@ -1,0 +1,39 @@
+//! Observation points for external verification harnesses. 
+//! Compiled only with `--cfg yui_verif`; without it nothing in this module exists.
+//!
+//! A harness installs a callback with `set_hook`. The parallel pivot search then reports
+//! its protocol steps through `emit`. The callback may block the calling thread at 
+//! `TaskStart` / `Candidate` (no lock is held there) to impose a schedule; 
+//! `Retry` / `Commit` are emitted while the write lock on the shared pivot table is held, 
+//! so their order is the order of the critical sections and the callback must not block on them. 
+
+use std::sync::{Arc, RwLock};
+
+#[derive(Clone, Debug, PartialEq, Eq)]
+pub enum PivotEvent { 
+    /// the two sequential phases are done; `pivots` = (row, col) found so far, in insertion order.
+    SeqDone   { pivots: Vec<(usize, usize)> },
+    /// a worker starts on `row` with a local copy of the first `snapshot` shared pivots.
+    TaskStart { row: usize, snapshot: usize },
+    /// local search on the snapshot finished; `col` is the chosen candidate (None: give up).
+    Candidate { row: usize, col: Option<usize>, snapshot: usize },
+    /// under the write lock: pivots added since the snapshot touch the searched region; the worker retries.
+    Retry     { row: usize, snapshot: usize, current: usize },
+    /// under the write lock: (row, col) is appended as pivot number `index`.
+    Commit    { row: usize, col: usize, snapshot: usize, index: usize },
+}
+
+type Hook = Arc<dyn Fn(&PivotEvent) + Send + Sync>;
+
+static HOOK: RwLock<Option<Hook>> = RwLock::new(None);
+
+pub fn set_hook(h: Option<Hook>) { 
+    *HOOK.write().unwrap() = h;
+}
+
+pub fn emit(e: PivotEvent) { 
+    let h = HOOK.read().unwrap().clone();
+    if let Some(h) = h { 
+        h(&e)
+    }
+}
